@@ -22,7 +22,8 @@ RULE = ("seeded random circuits (all component kinds, loss, barriers, unitary bl
         "group present); non-trivial = a rewrite actually had something to do (group / non-adjacent BS / two swaps)")
 MANDATORY = ["swap_blocked_by:PhaseShifter", "swap_blocked_by:BeamSplitter", "swap_blocked_by:Loss",
              "swap_blocked_by:Group", "swap_blocked_by:UnitaryMatrix", "swaps_mergeable",
-             "reversed_nonadjacent_bs_in_group", "heralded_group_unpacked", "frozen_copy", "independence_checked"]
+             "reversed_nonadjacent_bs_in_group", "heralded_group_unpacked", "frozen_copy", "independence_checked",
+             "original_gets_heralded_subcircuit_after_copy"]
 DECIDING = ["rewrite_postconditions", "mon.cmp"]
 BUDGET = {"quick": 25, "thorough": 420}
 ASSUMPTIONS = ["U_full compared entry-wise to 1e-9 (the rewrites do not reorder loss modes)",
@@ -206,7 +207,13 @@ def run(ctx):
                         ctx.violation(f"editing a {rw} changed the original", case={"circuit": log, "rewrites": seq},
                                       mechanism="copy_not_independent:" + rw, monitor="behavioural independence")
                     fp2 = circmon.circuit_fingerprint(c2, with_unitary=True)
-                    b.primitive(c, log, None)
+                    if rng.random() < 0.5 and b.numbered(c) >= 1:
+                        sub = b.leaf(2, 2, [], heralds=1)          # a heralded sub-circuit: inserts an ancilla mode
+                        c.add(sub, int(rng.integers(0, b.numbered(c) - sub.input_modes + 1)))
+                        log.append(["add", "heralded leaf", "m", True])
+                        ctx.bucket("original_gets_heralded_subcircuit_after_copy")
+                    else:
+                        b.primitive(c, log, None)
                     if circmon.circuit_fingerprint(c2, with_unitary=True) != fp2:
                         ctx.violation(f"editing the original changed its {rw}", case={"circuit": log, "rewrites": seq},
                                       mechanism="copy_not_independent:" + rw, monitor="behavioural independence")
